@@ -3,7 +3,7 @@
 
 def run(ctx):
     ctx.regen_go2lean()
-    ctx.lean_obligations(["SV.Props.C06", "SV.Props.C06b", "SV.Props.C06c", "SV.Props.C06gen"], drivers=["svdriver_c06"])
+    ctx.lean_obligations(["SV.Props.C06", "SV.Props.C06b", "SV.Props.C06c", "SV.Props.C06gen", "SV.Props.C06d"], drivers=["svdriver_c06"])
     quick = ctx.tier == "quick"
     b = ctx.go_test_binary("fs/remote", "h_remote")
     if b:
@@ -13,6 +13,8 @@ def run(ctx):
                        env={"VERIF_N": 300 if quick else 8000})
         ctx.correspond(b, "TestVerifC06C", "svdriver_c06", "c06c",
                        env={"VERIF_N": 25 if quick else 400})
+        ctx.correspond(b, "TestVerifC06D", "svdriver_c06", "c06d",
+                       env={"VERIF_N": 200 if quick else 4000})
     if not quick:
         br = ctx.go_test_binary("fs/remote", "h_remote_race", race=True)
         if br:
